@@ -68,13 +68,16 @@ ApplyOp(c, o) ==
     [] o.op = "USwap"   -> [c EXCEPT !.u = GScale(PAtom("r2"), GenK)]     \* U of another ciphertext
     [] o.op = "VFlip"   -> [c EXCEPT !.vtam = @ \o "flip;"]
     [] o.op = "VSwap"   -> [c EXCEPT !.vtam = @ \o "swap;"]
+    \* a sender (who knows alpha) masks it with SHA256(1_GT): the ciphertext is keyed to K = 1, which is
+    \* what the pairing with an identity signature (or an identity U) evaluates to
+    [] o.op = "VOne"    -> [c EXCEPT !.vk = GId]
     [] o.op = "W"       -> [c EXCEPT !.wtam = IF @ = "" THEN o.arg ELSE "multi"]
     [] o.op = "Relabel" -> [c EXCEPT !.scheme = o.arg]
 
 WTams(n) == {"flip-prefix", "extend", "trunc-msg", "trunc-all"}
             \cup (IF n > 0 THEN {"flip-message"} ELSE {})
             \cup (IF HasPadding(n) THEN {"flip-padding", "trunc-pad"} ELSE {})
-Ops(c) == {COp(x, "") : x \in {"UAddGen", "UNeg", "UScale", "UId", "USwap", "VFlip", "VSwap"}}
+Ops(c) == {COp(x, "") : x \in {"UAddGen", "UNeg", "UScale", "UId", "USwap", "VFlip", "VSwap", "VOne"}}
           \cup {COp("W", a) : a \in WTams(c.wn)}
           \cup {COp("Relabel", s) : s \in Schemes \ {c.scheme}}
 
